@@ -228,6 +228,21 @@ def _constructor(ctx):
         ctx.holds("deprecated class refuses plain metrics", False)
     except TypeError:
         ctx.holds("deprecated class refuses plain metrics", True)
+    for form, mk in (("positional", lambda: VarianceBasedEarlyStopping(1, 0.1, 1, me, "m", "m")),
+                     ("keyword", lambda: VarianceBasedEarlyStopping(1, 0.1, 1, me, "m", variance_name="m")),
+                     ("all keywords", lambda: VarianceBasedEarlyStopping(period=1, tolerance=0.1, patience=1, evaluator_callback=me, quantity_name="m", variance_name="v"))):
+        try:
+            with warnings.catch_warnings():
+                warnings.simplefilter("ignore")
+                mk()
+            ctx.holds("deprecated class refuses plain metrics also when a variance_name is given (%s), as the variance criterion does" % form, False)
+        except TypeError:
+            ctx.holds("deprecated class refuses plain metrics also when a variance_name is given (%s), as the variance criterion does" % form, True)
+    with warnings.catch_warnings():
+        warnings.simplefilter("ignore")
+        vb2 = VarianceBasedEarlyStopping(2, 0.5, 4, oe, "SigmaZ", "ignored")
+    ctx.holds("deprecated class with a variance_name == variance criterion", vb2.criterion == "variance" and vb2.deviation.__func__ is ref.deviation.__func__
+              and vb2.quantity_name == "SigmaZ")
 
 
 def replay(o):
